@@ -81,8 +81,8 @@ RULES = {
         "C10": "family D: subscribed()/subscribed_with() capacity 1-4 x 3 policies, direct twin registered right after, stalled (gated) drop-policy subscriber (released before stop() or 0.7-1.4 s after stop() was invoked), unsubscribe/stop at random points, poisoned subscriber list; non-trivial iff the subscriber's channel was full at least once (discard, delivery lagging by >= capacity, or progress while stalled); " + SCHED,
         "C11": "family E (+ witness W1): reducers return 0-4 effects per chain of all four kinds, thunks dispatching follow-ups, panicking and gated effects, middleware removing effects, client dispatch_task/thunk, stop with and without backlog (natively a stop() that gives up after its timeout although every gate was open, with work going on after it returned, is a violation); non-trivial iff >=2 effect kinds ran, >=1 follow-up was reduced and >=1 action issued >=2 effects; " + SCHED,
         "C12": "family F: exhaustive enumeration of the verdict assignments {Continue,Done,Break,Err}^(3M) for M=1..3 middlewares x {Dispatch,Keep} (64+4096+262144 assignments x 2), one action per pair on a live store in seed-shuffled order with effect/removal variants; in every fifth batch with M>=2 the last middleware is registered with add_middleware() from another thread while middleware 0 is parked inside before_reduce of a first action; non-trivial = every batch (all pairs are checked against the reference model); distinct = distinct enumeration batch of 2048 pairs (conservative: see assignment_answer_pairs_executed for the pair count)",
-        "C13": "family B (stop-race programs: a stop() left to its timeout with the loop still running is reported, natively also one that returns before the loop has ended although nothing was parked or slow, or although the reducer - parked with a full queue until 3.4 s after the call - had been released and the join had not used up its time) and family G: 2-4 client threads running random programs over the whole public API, each ending with stop(), in a third of the blocking-policy scenarios preceded by a phase in which every thread hammers a capacity-1/2 queue and thread 0 calls iter() in the middle of it (+ witnesses W2, W3 of the known iterator findings); non-trivial iff >=3 client threads and >=4 operation kinds; " + SCHED,
-        "C14": "families D and B (+ witness W2): iterator consumer on its own thread racing 1-4 producers and stop(), iterator created at a random point before stop(); an unread empty iterator dropped while another unsubscribe() is parked inside on_unsubscribe, then actions for a second, live iterator; non-trivial iff >=1 item was consumed while producers were still dispatching and end-of-stream was reached; " + SCHED,
+        "C13": "family B (stop-race programs: a stop() left to its timeout with the loop still running is reported, natively also one that returns before the loop has ended although nothing was parked or slow, or although the reducer - parked with a full queue until 3.4 s after the call - had been released and the join had not used up its time) and family G: 2-4 client threads running random programs over the whole public API, each ending with stop(), in a third of the blocking-policy scenarios preceded by a phase in which every thread hammers a capacity-1/2 queue and thread 0 calls iter() in the middle of it ; natively a stop() of >= 2.5 s that returns before the loop's last act is reported (+ witnesses W2, W3 of the known iterator findings); non-trivial iff >=3 client threads and >=4 operation kinds; " + SCHED,
+        "C14": "families D and B (+ witness W2): iterator consumer on its own thread racing 1-4 producers and stop(), iterator created at a random point before stop(); an unread empty iterator dropped (in half of the cases by a panic unwinding its owner) while another unsubscribe() is parked inside on_unsubscribe, then actions for a second, live iterator; non-trivial iff >=1 item was consumed while producers were still dispatching and end-of-stream was reached; " + SCHED,
         "C15": "family B with drop(DroppableStore) as the stop operation and outstanding clones used by 1-6 threads; natively a drop that returns through its timeout with the loop still running although nothing was parked is a violation, as is one that returns with the backlog unprocessed right after a late release of the parked reducer; 1/25: subscriber list poisoned by a panicking on_unsubscribe before the drop; non-trivial as C04 plus >=1 clone used after the drop; " + SCHED,
         "C16": "family K (one SelectorSubscriber instance registered on two stores); family I: exhaustive enumeration of all sequences over {0,1,2} up to length 9 fed to a real SelectorSubscriber, once with u8 equality and once with a tolerance (non-transitive) equality, plus family D (subscribe_with_selector on a live store; one SelectorSubscriber notified by 2-4 threads in lock step, 120 rounds, then by free-running threads, then with its callback parked while another thread presents the next value); non-trivial iff the sequence/stream contains both a repeat and a change; distinct = enumeration length class or schedule fingerprint",
         "C17": "family H: both constructors x every sequence over 18 builder calls up to length 3 (quick, 12 350 builds) / 4 (thorough, 222 302) plus random length 5-8, each compared with the last-setting model and every Ok result probed (thread name, chain order, middleware order, queue bound, drop behaviour); distinct = enumeration chunk of 64 builds (see builds for the count)",
